@@ -1978,9 +1978,26 @@ impl ParserState {
                     // if item.start_pos() == curr_idx, then we handled it below in the nullable check
 
                     // The main completion inference rule (slide 21 in Kallmeyer 2018)
+                    let parametric = self.scratch.parametric;
+                    let done_param = if parametric {
+                        self.scratch.item_args[item_idx]
+                    } else {
+                        ParamValue::default()
+                    };
                     for i in self.rows[item.start_pos()].item_indices() {
                         let item = self.scratch.items[i];
                         if self.grammar.sym_idx_dot(item.rhs_ptr()) == lhs {
+                            // in a parametric grammar, lhs::p only completes the items
+                            // that were waiting for lhs with that very parameter
+                            if parametric
+                                && self
+                                    .grammar
+                                    .param_value_dot(item.rhs_ptr())
+                                    .eval(self.scratch.item_args[i])
+                                    != done_param
+                            {
+                                continue;
+                            }
                             self.scratch.add_unique(item.advance_dot(), i, "complete");
                         }
                     }
